@@ -39,6 +39,10 @@ def setup_repo_path():
     if REPO not in sys.path[:1]:
         sys.path.insert(0, REPO)
     os.environ.setdefault("REQ_COMPILE_VERIF", "1")
+    import logging
+    import warnings
+    logging.disable(logging.CRITICAL)
+    warnings.simplefilter("ignore")
 
 
 def digest(obj) -> str:
